@@ -26,7 +26,12 @@
 (* are integers in -N/4 .. N/4; positions and directions are integer       *)
 (* 3-vectors (SEZ for directions: x south, y east, z zenith; rotation      *)
 (* about the local vertical is +r on Z_N, or the quarter turn RotZ on the  *)
-(* lattice); the Earth / limb sphere has the integer radius R.             *)
+(* lattice); the Earth / limb sphere has the integer radius R.  The driver  *)
+(* scales lattice units to km: los, sun: Earth.radius / R; limb:           *)
+(* (Earth.radius + Earth.atmosphere) / R.  Configurations:                 *)
+(* Visibility_quick.cfg (cube of side 7 Earth radii, R = 1, with the       *)
+(* brute-force LosIsSegmentTest) and Visibility_thorough.cfg (half-radius  *)
+(* lattice, R = 2, finer angle grids).                                     *)
 (*                                                                         *)
 (* Formulas that STATE the property:                                       *)
 (*   RectMargin / RectEval, RectReflexive, RectRotationInvariant,          *)
@@ -368,13 +373,13 @@ Half(k)  == (N \div 2 - k)..(N \div 2 + k)
 Every(step, off) == {j * step + off : j \in 0..((N - 1 - off) \div step)}
 
 RectShapesQuick    == {<<2, 2>>, <<7, 4>>, <<90, 30>>}
-RectShapesThorough == RectShapesQuick \cup {<<1, 3>>, <<5, 179>>, <<179, 5>>}
+RectShapesThorough == RectShapesQuick \cup {<<1, 3>>, <<179, 5>>}
 AzGridQuick        == Seam(3) \cup {45, 90, 135, 225, 270, 315} \cup Half(1)
 AzGridThorough     == Seam(3) \cup Half(3) \cup Every(15, 0)
 ElGridQuick        == {-90, -30, 0, 1, 2, 45, 89, 90}
 ElGridThorough     == {-90, -45, -1, 0, 1, 2, 45, 87, 88, 89, 90}
 RotsQuick          == {1, 3, 90, 180, 358}
-RotsThorough       == RotsQuick \cup {2, 4, 5, 7, 30, 45, 179, 181, 270, 300, 355, 357, 359}
+RotsThorough       == RotsQuick \cup {2, 7, 45, 179, 181, 270, 357, 359}
 
 \* <<cs, p, q>>: cos(half cone angle) = cs * sqrt(p / q)   (3/4: 30 deg, 99/100: 5.7 deg)
 ConesQuick    == {<<1, 3, 4>>, <<1, 1, 2>>, <<1, 99, 100>>}
@@ -383,7 +388,7 @@ ConesThorough == ConesQuick \cup {<<1, 1, 4>>, <<1, 9, 10>>, <<1, 24, 25>>}
 MaskGridQuick    == Every(10, 0)
 MaskGridThorough == Every(5, 0)
 MaskAzQuick      == Seam(3) \cup Every(30, 9) \cup Every(45, 0)
-MaskAzThorough   == Seam(8) \cup Every(5, 1) \cup Every(5, 4) \cup Every(45, 0)
+MaskAzThorough   == Seam(8) \cup Every(5, 1) \cup Every(10, 4) \cup Every(45, 0)
 MaskElQuick      == {10}
 MaskElThorough   == {60}
 ElMasksAll       == {<<0, 90>>, <<-30, 30>>, <<10, 80>>, <<-89, 90>>, <<45, 45>>, <<30, 10>>}
